@@ -21,6 +21,7 @@ FUNCS = {
     'things.Base': (['x', 'y', 'child'], [], False, False, []),
     'things.LeafCls': (['x', 'y', 'child', 'extra'], [], False, False, []),
     'things.ident': (['x'], [], False, False, []),
+    'things.CfgError': (['x', 'y', 'child'], [], False, False, []),
     'things.make_rec': (['tag'], [], False, False, []),
     'things.Statics.smake': (['x', 'y'], [], False, False, []),
     'things.Statics.cmake': (['x', 'y'], [], False, False, []),
